@@ -256,6 +256,21 @@ static void h_cache(coap_resource_t *r, coap_session_t *s, const coap_pdu_t *req
   coap_add_data(resp, (size_t)n, (const uint8_t *)buf);
 }
 
+/* FETCH handler: answers "f<value>:<length of the request body>"; observable */
+static void h_fetch(coap_resource_t *r, coap_session_t *s, const coap_pdu_t *req,
+                    const coap_string_t *q, coap_pdu_t *resp) {
+  size_t len = 0, off, tot;
+  const uint8_t *data;
+  char buf[32];
+  (void)r; (void)s; (void)q;
+  W.n_get++;
+  coap_get_data_large(req, &len, &data, &off, &tot);
+  W.put_len = len;
+  int n = snprintf(buf, sizeof(buf), "f%d:%zu", W.obs_value, len);
+  coap_pdu_set_code(resp, COAP_RESPONSE_CODE_CONTENT);
+  coap_add_data(resp, (size_t)n, (const uint8_t *)buf);
+}
+
 static void h_loop(coap_resource_t *r, coap_session_t *s, const coap_pdu_t *req,
                    const coap_string_t *q, coap_pdu_t *resp) {
   (void)r; (void)s; (void)req; (void)q;
@@ -857,9 +872,11 @@ static void sc_persist(void) {
    * restart: coap_persist_startup() on the files, a notification to the restored observer, a
    * GET on the restored resource, coap_persist_stop(), tear-down */
   char f_dyn[96], f_obs[96], f_val[96];
-  snprintf(f_dyn, sizeof(f_dyn), "/var/tmp/verif.c18.%d.dyn", (int)getpid());
-  snprintf(f_obs, sizeof(f_obs), "/var/tmp/verif.c18.%d.obs", (int)getpid());
-  snprintf(f_val, sizeof(f_val), "/var/tmp/verif.c18.%d.val", (int)getpid());
+  /* fixed-length names (zero-padded pid): the library copies them, so their length is an
+   * allocation size and must not depend on the number of digits of the pid */
+  snprintf(f_dyn, sizeof(f_dyn), "/var/tmp/verif.c18.%010d.dyn", (int)getpid());
+  snprintf(f_obs, sizeof(f_obs), "/var/tmp/verif.c18.%010d.obs", (int)getpid());
+  snprintf(f_val, sizeof(f_val), "/var/tmp/verif.c18.%010d.val", (int)getpid());
   prologue(COAP_BLOCK_USE_LIBCOAP | COAP_BLOCK_SINGLE_BODY);
   fa_armed = 0;
   int ok = coap_persist_startup(W.srv, f_dyn, f_obs, f_val, 1);
@@ -944,6 +961,87 @@ static void sc_persist(void) {
     remove(f_obs);
     remove(f_val);
   }
+}
+
+static void fetch_observe(size_t body_len) {
+  /* FETCH with Observe = 0 (the client keeps the tokens of the registration per block:
+   * track_fetch_observe), two notifications, cancel; body_len > 1024 makes the request itself
+   * block-wise (Block1) */
+  prologue(COAP_BLOCK_USE_LIBCOAP | COAP_BLOCK_SINGLE_BODY);
+  coap_resource_t *r = coap_resource_init(coap_make_str_const(full_name("fobs")), 0);
+  if (r) {
+    coap_register_request_handler(r, COAP_REQUEST_FETCH, h_fetch);
+    coap_resource_set_get_observable(r, 1);
+    coap_add_resource(W.srv, r);
+  }
+  uint8_t tok[8];
+  size_t tl = 0;
+  char exp[32];
+  coap_pdu_t *p = mk_req(W.cs, COAP_MESSAGE_CON, COAP_REQUEST_CODE_FETCH, "fobs", tok, &tl);
+  uint8_t cf[2];
+  if (p && (!coap_insert_option(p, COAP_OPTION_OBSERVE, 0, NULL) ||
+            !coap_insert_option(p, COAP_OPTION_CONTENT_FORMAT,
+                                coap_encode_var_safe(cf, sizeof(cf),
+                                                     COAP_MEDIATYPE_APPLICATION_OCTET_STREAM), cf))) {
+    coap_delete_pdu(p);
+    p = NULL;
+  }
+  if (p) {
+    int a = coap_add_data_large_request(W.cs, p, body_len, up_body, NULL, NULL);
+    R("large=%d", a);
+    if (!a) {
+      coap_delete_pdu(p);
+      p = NULL;
+    }
+  }
+  R("pdu=%d", p != NULL);
+  int sent_ok = 0;
+  if (p) R("send=%d", sent_ok = (send_tracked(W.cs, p) != COAP_INVALID_MID));
+  pump(200000);
+  R("reg resp=%d code=%d len=%zu", W.n_resp, W.last_code, W.last_len);
+  int registered = sent_ok && W.n_resp == 1 && W.last_code == COAP_RESPONSE_CODE_CONTENT && W.last_obs;
+  if (W.n_resp && W.last_code == COAP_RESPONSE_CODE_CONTENT) {
+    int l = snprintf(exp, sizeof(exp), "f0:%zu", body_len);
+    if (W.last_len != (size_t)l || W.last_hash != fnv((uint8_t *)exp, (size_t)l)) R("bad=wrong-payload");
+  }
+  for (int i = 1; i <= 2; i++) {
+    int before = W.n_resp;
+    W.obs_value = i;
+    int n = r ? coap_resource_notify_observers(r, NULL) : 0;
+    pump(200000);
+    R("notify%d=%d got=%d", i, n, W.n_resp - before);
+    if (W.n_resp > before && W.last_code == COAP_RESPONSE_CODE_CONTENT) {
+      int l = snprintf(exp, sizeof(exp), "f%d:%zu", i, body_len);
+      if (W.last_len != (size_t)l || W.last_hash != fnv((uint8_t *)exp, (size_t)l))
+        R("bad=stale-or-wrong-notification");
+    }
+  }
+  coap_binary_t t;
+  t.length = tl;
+  t.s = tok;
+  int plain0 = W.n_plain;
+  W.last_plain_code = 0;
+  int c = coap_cancel_observe(W.cs, &t, COAP_MESSAGE_CON);
+  pump(200000);
+  R("cancel=%d got=%d code=%d", c, W.n_plain - plain0, W.last_plain_code);
+  int cancelled = c && W.n_plain > plain0 && W.last_plain_code == COAP_RESPONSE_CODE_CONTENT;
+  int before = W.n_resp;
+  W.obs_value = 9;
+  if (r) coap_resource_notify_observers(r, NULL);
+  pump(200000);
+  R("after=%d", W.n_resp - before);
+  if (cancelled && W.n_resp > before) R("bad=notified-after-successful-cancel");
+  (void)registered;
+  finish_with_canary();
+  world_down();
+}
+
+static void sc_fetch_obs(void) {
+  fetch_observe(40);
+}
+
+static void sc_fetch_obs_big(void) {
+  fetch_observe(UP_LEN);
 }
 
 static void sc_async(void) {
@@ -1369,6 +1467,7 @@ LONGV(cache, 1)
 LONGV(oscore, 1)
 LONGV(qblock, 1)
 LONGV(obs_big, 1)
+LONGV(fetch_obs, 1)
 
 typedef struct {
   const char *name;
@@ -1388,6 +1487,7 @@ static const scen_t scens[] = {
   {"observe_l1", sc_observe_l1}, {"observe_l2", sc_observe_l2}, {"echo_l1", sc_echo_l1},
   {"async_l1", sc_async_l1}, {"cache_l1", sc_cache_l1}, {"oscore_l1", sc_oscore_l1},
   {"qblock_l1", sc_qblock_l1}, {"obs_big_l1", sc_obs_big_l1},
+  {"fetch_obs", sc_fetch_obs}, {"fetch_obs_big", sc_fetch_obs_big}, {"fetch_obs_l1", sc_fetch_obs_l1},
   {NULL, NULL}};
 
 /* ------------------------------------------------------------------ child / parent */
@@ -1431,6 +1531,14 @@ static void child_main(const scen_t *sc, long k1, long k2, int want_sites, long 
       }
     if (!any) wr(fd, "-", 1);
   }
+  wr(fd, "\n", 1);
+  /* distinct allocation call sites attempted while armed */
+  wr(fd, "C ", 2);
+  for (int i = 0; i < fa_ncs; i++) {
+    n = snprintf(tmp, sizeof(tmp), "%s%p", i ? "," : "", fa_cs[i]);
+    wr(fd, tmp, (size_t)n);
+  }
+  if (!fa_ncs) wr(fd, "-", 1);
   wr(fd, "\n", 1);
   wr(fd, "R ", 2);
   wr(fd, resbuf, reslen);
@@ -1534,11 +1642,11 @@ static void run_fa(void) {
     static const char *ext[] = {"dyn", "obs", "val", "obs.tmp", "dyn.tmp", "val.tmp"};
     char fn[96];
     for (unsigned i = 0; i < sizeof(ext) / sizeof(ext[0]); i++) {
-      snprintf(fn, sizeof(fn), "/var/tmp/verif.c18.%d.%s", (int)pid, ext[i]);
+      snprintf(fn, sizeof(fn), "/var/tmp/verif.c18.%010d.%s", (int)pid, ext[i]);
       if (!getenv("FA_KEEP")) remove(fn);
     }
   }
-  char *d, *r, *s, *t, *l, *inj, *e, *kk;
+  char *d, *r, *s, *t, *l, *inj, *e, *kk, *cc;
   field(buf, 'D', &d);
   field(buf, 'R', &r);
   field(buf, 'S', &s);
@@ -1546,6 +1654,7 @@ static void run_fa(void) {
   field(buf, 'L', &l);
   field(buf, 'I', &inj);
   field(buf, 'K', &kk);
+  field(buf, 'C', &cc);
   int complete = strstr(buf, "\nE\n") != NULL || strncmp(buf, "E\n", 2) == 0;
   (void)e;
   if (WIFSIGNALED(st)) {
@@ -1580,6 +1689,7 @@ static void run_fa(void) {
   }
   printf(" %s", d ? d : "n=? inj=? canary=? guard=? poison=? live=? tm=? un=?");
   printf(" leaked=%s", kk ? kk : "?");
+  printf(" cs=%s", cc ? cc : "?");
   printf(" sends=%s", s ? s : "?");
   printf(" res=");
   if (r) {
@@ -1591,7 +1701,7 @@ static void run_fa(void) {
   if (want_sites) printf(" sites=%s", l ? l : "?");
   printf("\n");
   free(buf);
-  free(d); free(r); free(s); free(t); free(l); free(inj); free(kk);
+  free(d); free(r); free(s); free(t); free(l); free(inj); free(kk); free(cc);
 }
 
 /* ------------------------------------------------------------------ PDU-layer tie
